@@ -21,6 +21,13 @@ def handleCompatMat (j : Json) : R Json := do
   let rows := ds.map fun a => String.ofList (ds.map fun b => if isCompatible a b then '1' else '0')
   pure (Json.mkObj [("rows", Json.arr (rows.map Json.str).toArray)])
 
+/-- the extracted tables, for the table-equality validation of a part whose source the translator could not read -/
+def handleTables (_j : Json) : R Json := do
+  pure (Json.mkObj [
+    ("singles", Json.str (String.ofList singleLetterAtoms)),
+    ("doubles", Json.arr (doubleLetterAtoms.map fun (a, b) => Json.str (String.ofList [a, b])).toArray),
+    ("masses", Json.arr (atomicMasses.map fun (z, m) => Json.arr #[natToJson z, ratToJson m]).toArray)])
+
 def handleGen (j : Json) : R Json := do
   let els ← listOf elementOf (← getF j "els")
   let ev ← listOf eventOf (← getF j "ev")
@@ -59,11 +66,12 @@ def handleSysGen (j : Json) : R Json := do
         ("trace", Json.arr (tr.map traceItemToJson).toArray), ("rest", natToJson rest.length)])
   else
     let M ← ratOf (← getF j "M")
-    let g ← boolOf (← getF j "generable")
+    let est ← boolOf (← getF j "estim")
+    let g := sysGenerable est cs
     match sysGenerator fuel 100000 g cs M ev with
-    | .error e => pure (Json.mkObj [("ok", Json.bool false), ("err", Json.str (errToString e))])
+    | .error e => pure (Json.mkObj [("ok", Json.bool false), ("gen", Json.bool g), ("err", Json.str (errToString e))])
     | .ok (l, tr, rest) =>
-      pure (Json.mkObj [("ok", Json.bool true), ("members", Json.arr (l.map memberToJson).toArray),
+      pure (Json.mkObj [("ok", Json.bool true), ("gen", Json.bool g), ("members", Json.arr (l.map memberToJson).toArray),
         ("trace", Json.arr (tr.map traceItemToJson).toArray), ("rest", natToJson rest.length)])
 
 def fnameOf (j : Json) : R FName := optOf natOf j
@@ -242,6 +250,7 @@ def handle (j : Json) : R Json := do
   | "FFREAD" => handleFFRead j
   | "COMPATMAT" => handleCompatMat j
   | "CPROB" => handleCProb j
+  | "TABLES" => handleTables j
   | _ => throw s!"unknown op {op}"
 
 def handleLine (line : String) : String :=
